@@ -653,6 +653,10 @@ impl Cluster {
         }
     }
 
+    pub async fn settle_node(&mut self, id: u32) -> Res<()> {
+        self.settle(id).await.map(|_| ())
+    }
+
     async fn after_turn(&mut self, id: u32) {
         quiesce().await;
         self.net.pump();
